@@ -287,12 +287,15 @@ func (e *Engine) canonicalise(st *State, base ObjID, roots []Value) []Value {
 	}
 	for _, pg := range st.parked {
 		r.obj(pg.wait)
-		for _, k := range sortedRegs(pg.fr) {
-			r.visit(pg.fr.regs[k])
-		}
-		for _, d := range pg.fr.defers {
-			r.visit(d.fn)
-			r.visit(TupleV(d.args))
+		r.visit(pg.sendVal)
+		for _, fc := range pg.stack {
+			for _, k := range sortedRegs(fc.fr) {
+				r.visit(fc.fr.regs[k])
+			}
+			for _, d := range fc.fr.defers {
+				r.visit(d.fn)
+				r.visit(TupleV(d.args))
+			}
 		}
 	}
 	// older objects (of this state's own heap; base-heap objects cannot point to new ones unless overwritten,
@@ -397,16 +400,22 @@ func (e *Engine) canonicalise(st *State, base ObjID, roots []Value) []Value {
 		np := make([]*parkedG, len(st.parked))
 		for i, pg := range st.parked {
 			c := *pg
-			f := pg.fr.clone()
-			for k, v := range f.regs {
-				f.regs[k], _ = r.rewrite(v)
+			c.stack = make([]frameCont, len(pg.stack))
+			for l, fc := range pg.stack {
+				f := fc.fr.clone()
+				for k, v := range f.regs {
+					f.regs[k], _ = r.rewrite(v)
+				}
+				for j, d := range f.defers {
+					fn, _ := r.rewrite(d.fn)
+					as, _ := r.rewrite(TupleV(d.args))
+					f.defers[j] = deferred{fn: fn, args: []Value(as.(TupleV)), call: d.call}
+				}
+				c.stack[l] = frameCont{fr: f, idx: fc.idx, call: fc.call}
 			}
-			for j, d := range f.defers {
-				fn, _ := r.rewrite(d.fn)
-				as, _ := r.rewrite(TupleV(d.args))
-				f.defers[j] = deferred{fn: fn, args: []Value(as.(TupleV)), call: d.call}
+			if pg.sendVal != nil {
+				c.sendVal, _ = r.rewrite(pg.sendVal)
 			}
-			c.fr = f
 			if n, ok := r.ren[pg.wait]; ok {
 				c.wait = n
 			}
